@@ -29,6 +29,7 @@ import (
 
 	"github.com/compose-spec/compose-go/v2/format"
 	"github.com/compose-spec/compose-go/v2/transform"
+	"github.com/compose-spec/compose-go/v2/tree"
 	"github.com/compose-spec/compose-go/v2/types"
 
 	"verifharness/core"
@@ -114,7 +115,7 @@ type decodeArgs struct {
 	V    json.RawMessage `json:"v"`
 }
 
-var decodeTypes = []string{"Mapping", "MappingWithEquals", "Labels", "HostsList", "StringList", "StringOrNumberList", "HealthCheckTest", "Options", "DeviceCount", "UlimitsConfig"}
+var decodeTypes = []string{"Mapping", "MappingWithEquals", "Labels", "HostsList", "StringList", "StringOrNumberList", "HealthCheckTest", "Options", "DeviceCount", "UlimitsConfig", "ShellCommand"}
 
 func strPtrMap(m map[string]*string) any {
 	out := map[string]any{}
@@ -187,6 +188,15 @@ func realDecode(raw json.RawMessage) any {
 		var x types.HealthCheckTest
 		err = x.DecodeMapstructure(v)
 		res = strList(x)
+	case "ShellCommand":
+		if _, isStr := v.(string); isStr {
+			return map[string]any{"bad": "type"} // string form: go-shellwords, outside the model
+		}
+		var x types.ShellCommand
+		err = x.DecodeMapstructure(v)
+		if x != nil {
+			res = strList(x)
+		}
 	case "DeviceCount":
 		var x types.DeviceCount
 		err = x.DecodeMapstructure(v)
@@ -728,6 +738,34 @@ func init() {
 			return map[string]any{"ok": net.ParseIP(a.S) != nil}
 		},
 		DriverOp: "c03.validIP", Judge: classJudge("Short.validIP ≠ net.ParseIP"),
+	})
+	core.Register("c03.pathNext", &core.CheckDef{
+		Real: func(raw json.RawMessage) any {
+			var a struct {
+				P    []string
+				Part string
+			}
+			json.Unmarshal(raw, &a)
+			p := tree.NewPath(a.P...)
+			return map[string]any{"parts": p.Next(a.Part).Parts()}
+		},
+		DriverOp: "c03.pathNext",
+		Judge: func(args, real, drv json.RawMessage) *core.Verdict {
+			if v := crashVerdict(real); v != nil {
+				return v
+			}
+			var r struct{ Parts []string }
+			var d struct{ Next, NextK []string }
+			json.Unmarshal(real, &r)
+			json.Unmarshal(drv, &d)
+			if !jsonEq(r.Parts, d.Next) {
+				return core.Disagree(fmt.Sprintf("TPath.next ≠ tree.Path.Next: %v vs %v", d.Next, r.Parts))
+			}
+			if !jsonEq(r.Parts, d.NextK) {
+				return core.Disagree(fmt.Sprintf("TPath.nextK ≠ tree.Path.Next: %v vs %v", d.NextK, r.Parts))
+			}
+			return nil
+		},
 	})
 	core.Register("c03.canonical", &core.CheckDef{
 		Real: realCanonical, DriverOp: "c03.canonical", Judge: canonicalJudge,
